@@ -50,6 +50,21 @@ def build(backend, tier):
         "first-of-float-constant": (f"{S}.Select(lambda j: 2.5).First()", [f"{S}.Count() > 0"]),
         "first-link": (f"{S}.First().link().pt()", []),
     }
+    # ---- Range with computed bounds that come out negative, reversed or equal on some events: an empty range, never a fault
+    los = ["0", "1", "2", f"{T}.Count()"]
+    his = [f"{S}.Count() - 1", f"{S}.Count() - 2", f"{S}.Count() + 1", "0", "-1", f"{T}.Count() - 1", f"{S}.Count() - {T}.Count()"]
+    for lo in los:
+        for hi in his:
+            r = f"Range({lo}, {hi})"
+            add("range-bounds:column", f"ds.Select(lambda e: {r})")
+            add("range-bounds:count", f"ds.Select(lambda e: {r}.Count())")
+            add("range-bounds:select", f"ds.Select(lambda e: {r}.Select(lambda i: i * 2))")
+            add("range-bounds:tuple", f"ds.Select(lambda e: ({S}.Count(), {r}.Sum()))")
+            if lo == "0" and hi.startswith(f"{S}.Count() - "):
+                add("range-bounds:index", f"ds.Select(lambda e: {r}.Select(lambda i: {S}[i].pt()))")
+    for hi in ("j.nTrk() - 1", "j.nTrk() - 2", "j.tags().Count() - 1"):
+        add("range-bounds:per-object", f"ds.Select(lambda e: {S}.Select(lambda j: Range(0, {hi}).Count()))")
+        add("range-bounds:per-object-sum", f"ds.SelectMany(lambda e: {S}).Select(lambda j: Range(0, {hi}).Sum())")
     weak_guards = [f"{S}.Count() > 0", f"{S}.Count() > 1", f"{T}.Count() > 0", f"{S}.Count() >= 0", f"{S}.Count() == 0"]
     for name, (p, good) in ev_partials.items():
         add(f"bare:{name}", f"ds.Select(lambda e: {p})")
